@@ -503,6 +503,8 @@ inductive Op
   /-- `declare|local|export|readonly [-x] [-r] [-a|-A] [-g] name[=rhs]`; `naked = true` is a
       bare name. -/
   | decl (v : DeclVariant) (x r g : Bool) (vt : ValType) (name : Bytes) (naked append : Bool) (rhs : Rhs)
+  /-- `name=rhs cmd` / `name+=rhs cmd`: set (exported) for the command, restored afterwards. -/
+  | inline (name : Bytes) (append : Bool) (rhs : Rhs)
   /-- `unset [-v|-f] name` / `unset 'name[sub]'`. -/
   | unset (mode : UnsetMode) (name : Bytes) (sub : Option Sub)
   /-- `read -a name` with the given fields. -/
@@ -584,6 +586,17 @@ def step (fx : Bool) (g : Grows) (h : Heap) (r : Runner) : Op â†’ Option (Heap Ã
         match setVar r a.1 name (declAttrs v x ro gl r.inFunc a.2) with
         | none => none
         | some h' => some (h', r)
+  | .inline name append rhs =>
+    match assignVal fx g h (lookupVar r h name) append rhs .dflt with
+    | none => none
+    | some a =>
+      match setVar r a.1 name { a.2 with exported := true } with
+      | none => none
+      | some h1 =>
+        -- â€¦ the command runs â€¦, then `r.setVar(restore.name, restore.vr)`
+        match setVar r h1 name (lookupVar r h name) with
+        | none => none
+        | some h2 => some (h2, r)
   | .unset mode name sub =>
     match sub with
     | some s =>
@@ -820,6 +833,7 @@ def childRun (fx : Bool) (g : Grows) (h : Heap) (p : Runner) (bg : Bool) (ops : 
 /-- The variable a `name+=word` operation appends to, when the operation is of that form. -/
 def appendTarget (r : Runner) (h : Heap) : Op â†’ Option Var
   | .assign name _ true (.str _) => some (lookupVar r h name)
+  | .inline name true (.str _) => some (lookupVar r h name)
   | .decl v _ _ _ _ name false true (.str _) =>
     if v == .local && !r.inFunc then none else some (lookupVar r h name)
   | _ => none
